@@ -6,6 +6,11 @@ cd /verif
 ids="$@"; [ -z "$ids" ] && ids=$(ls seeded)
 for id in $ids; do
   prop=${id%%-*}
+  # reverts of repairs (R-<commit>) name their checks in meta.json
+  if [ -f seeded/$id/meta.json ]; then
+    p=$(python3 -c "import json,sys; m=json.load(open('seeded/$id/meta.json')); print(' '.join(m.get('checks_to_run') or [m.get('breaks_property','')]))")
+    [ -n "$p" ] && prop="$p"
+  fi
   echo "=== seeded/$id"
   VERIF_STALL_S=60 tools/mutant.sh /verif/seeded/$id/patch.diff $prop ${CHECKS_EXTRA:-} 2>&1 | tee /verif/seeded/$id/result.txt
 done
